@@ -610,7 +610,21 @@ func vRunBusPlan(pl vBusPlan) *vBusHistory {
 			}
 		}
 		h.BusCloseCall = clk.stamp()
-		theBus.Close()
+		closed := make(chan struct{})
+		go func() { theBus.Close(); close(closed) }()
+		if !vWaitProgress(clk, func() bool {
+			select {
+			case <-closed:
+				return true
+			default:
+				return false
+			}
+		}, vStall) {
+			if h.Hang == "" {
+				h.Hang = "bus.Close() did not return although nothing else was pending (no progress for " + vStall.String() + ")\n" + vGoroutineDump()
+			}
+			return h
+		}
 		h.BusCloseRet = clk.stamp()
 	}
 	// after the bus is closed every reader sees Done()
@@ -635,7 +649,7 @@ func vDirectedClone(n, k, later int, cloneOfClone bool) (*vBusHistory, []vBusVio
 	var vio []vBusViolation
 	h := &vBusHistory{Mode: fmt.Sprintf("directed:clone n=%d k=%d later=%d coc=%v", n, k, later, cloneOfClone)}
 	bus := NewBus()
-	defer bus.Close()
+	defer func() { go bus.Close() }() // (never waits: a wedged bus must not take the harness with it)
 	s, err := bus.Subscribe()
 	if err != nil {
 		return h, []vBusViolation{{"subscribe-works", "directed", err.Error()}}
